@@ -193,7 +193,19 @@ def start_line(sc, res):
             "ncurves": 0 if cs is None else len(cs.diffusion_curves),
             "Tcurve": F(cs.diffusion_curves[0].feed_temperature) if cs is not None else 0.0,
             "M1": F(mix.first_component.molecular_weight), "M2": F(mix.second_component.molecular_weight),
-            "mixname": mix.name}
+            "mixname": mix.name, "hasRef": False}
+
+
+def ref_fields(sc):
+    """everything the specification needs to re-compute an ideal run by itself: mixture parameters, heat-capacity
+    constants and the membrane's experiments (kg units, file order)"""
+    from .rec_component import hc_desc
+    from .rec_membrane import exp_desc
+    mix = sc["mix"]
+    ex = sc["membrane"].ideal_experiments.experiments
+    return {"hasRef": True, "mix": mix_desc(mix), "hc1": hc_desc(mix.first_component), "hc2": hc_desc(mix.second_component),
+            "exps1": [exp_desc(e, mix.first_component) for e in ex if e.component.name == mix.first_component.name],
+            "exps2": [exp_desc(e, mix.second_component) for e in ex if e.component.name == mix.second_component.name]}
 
 
 def _v(x):
@@ -286,7 +298,7 @@ def fit_oracle(sc, membrane, include_zero=False):
     return {"single": single, "orc": [fit_desc(f1), fit_desc(f2)], "Ea": ea}
 
 
-def trace_process(rng, sc, with_std=True, with_fits=False):
+def trace_process(rng, sc, with_std=True, with_fits=False, with_ref=False):
     perv = prepare(rng, sc)
     if perv is None:
         return None, None
@@ -298,6 +310,8 @@ def trace_process(rng, sc, with_std=True, with_fits=False):
                       "fits_ret": [fit_desc(f) for f in res["model"].permeance_fits]})
     else:
         tr[0].update({"hasFits": False})
+    if with_ref and res["outcome"] == "return":
+        tr[0].update(ref_fields(sc))
     if res["outcome"] == "return":
         tr.extend(state_lines(perv, sc, res, with_std))
     tr.append(end_line(sc, res))
@@ -320,7 +334,8 @@ def record_job(job):
         sc = scenario(rng, kind=kind, removal=rem)
         if opts.get("maxN"):
             sc["N"] = min(sc["N"], opts["maxN"])
-        tr, res = trace_process(rng, sc, with_std=opts.get("with_std", True), with_fits=opts.get("with_fits", False))
+        tr, res = trace_process(rng, sc, with_std=opts.get("with_std", True), with_fits=opts.get("with_fits", False),
+                               with_ref=opts.get("with_ref", False))
         if tr is None:
             stats["outcomes"]["unprepared"] = stats["outcomes"].get("unprepared", 0) + 1
             continue
